@@ -387,6 +387,7 @@ type witness struct {
 	conf      string
 	hist      string
 	n         int
+	rank      int // order among equally short witnesses
 	replay    map[string]any
 }
 
@@ -394,16 +395,83 @@ type collector struct {
 	mu   sync.Mutex
 	best map[string]*witness
 	hits map[string]int
+	// divergences that the "mismatched key cached" variant explains but does
+	// not prove, by the key they get if the run does not confirm that defect
+	prov     map[string]*witness
+	provHits map[string]int
 }
 
-func (k *collector) add(w *witness) {
+func newCollector() *collector {
+	return &collector{best: map[string]*witness{}, hits: map[string]int{}, prov: map[string]*witness{}, provHits: map[string]int{}}
+}
+
+func lessWitness(x, y *witness) bool {
+	if x.n != y.n {
+		return x.n < y.n
+	}
+	if x.rank != y.rank {
+		return x.rank < y.rank
+	}
+	if x.hist != y.hist {
+		return x.hist < y.hist
+	}
+	return x.conf < y.conf
+}
+
+func (k *collector) add(w *witness, provisional bool) {
 	k.mu.Lock()
 	defer k.mu.Unlock()
-	k.hits[w.key]++
-	b := k.best[w.key]
-	if b == nil || w.n < b.n || (w.n == b.n && (w.hist < b.hist || (w.hist == b.hist && w.conf < b.conf))) {
-		k.best[w.key] = w
+	best, hits := k.best, k.hits
+	if provisional {
+		best, hits = k.prov, k.provHits
 	}
+	hits[w.key]++
+	if b := best[w.key]; b == nil || lessWitness(w, b) {
+		best[w.key] = w
+	}
+}
+
+// resolve turns the collected divergences into the final, deterministic list:
+// provisional ones join the mismatched-key defect when the run confirmed it and
+// stand on their own otherwise; a divergence seen in the state "locked after a
+// failed attempt" is folded into the same divergence seen on a fresh identity
+// (it does not depend on the history then).
+func (k *collector) resolve() []*witness {
+	if _, confirmed := k.best[F7Key]; confirmed {
+		for key, n := range k.provHits {
+			k.hits[F7Key] += n
+			delete(k.prov, key)
+		}
+	} else {
+		for key, w := range k.prov {
+			k.hits[key] += k.provHits[key]
+			if b := k.best[key]; b == nil || lessWitness(w, b) {
+				k.best[key] = w
+			}
+		}
+	}
+	for key := range k.best {
+		if !strings.Contains(key, ":locked-after-failed-attempt:") {
+			continue
+		}
+		sib := strings.Replace(key, ":locked-after-failed-attempt:", ":locked-fresh:", 1)
+		if _, ok := k.best[sib]; ok {
+			k.hits[sib] += k.hits[key]
+			delete(k.best, key)
+		}
+	}
+	ks := make([]string, 0, len(k.best))
+	for key := range k.best {
+		ks = append(ks, key)
+	}
+	sort.Strings(ks)
+	out := make([]*witness, 0, len(ks))
+	for _, key := range ks {
+		w := k.best[key]
+		w.replay["histories_with_this_key"] = k.hits[key]
+		out = append(out, w)
+	}
+	return out
 }
 
 func fmtPred(prompts int, class string) string {
@@ -438,7 +506,16 @@ func runHistory(r *mon.Run, col *collector, b *batch, h []step) (recs []stepRec)
 	vOK, followV := true, false
 	recs = make([]stepRec, 0, len(h))
 	mkWitness := func(key, what string, j int) *witness {
-		return &witness{key: key, what: what, conf: c.name, hist: histString(h[:j+1]), n: j + 1, replay: map[string]any{
+		// prefer an unexpected decryption, and an enumerated history (the
+		// same for every seed) over a sampled one
+		rank := 3
+		if strings.HasSuffix(recs[j].Got, clsPlain) {
+			rank = 1
+		}
+		if b.exact {
+			rank--
+		}
+		return &witness{key: key, what: what, conf: c.name, hist: histString(h[:j+1]), n: j + 1, rank: rank, replay: map[string]any{
 			"identity": c.name, "declared_public_key": c.declared + ".pub", "private_key_file": c.pem, "key_format": c.format,
 			"passphrase": keys.Passphrase, "history": histString(h[:j+1]), "steps": append([]stepRec(nil), recs...),
 			"from": b.name,
@@ -494,10 +571,6 @@ func runHistory(r *mon.Run, col *collector, b *batch, h []step) (recs []stepRec)
 		if followV && okV {
 			continue
 		}
-		pl := "-"
-		if want.prompts > 0 || got.prompts > 0 {
-			pl = cur.p.String()
-		}
 		desc := fmt.Sprintf("identity %s (declared %s.pub, private key file %s), history [%s]: step %d decrypts file %s (stanzas for %v) with the callback answering %s; "+
 			"model state %s expects %s, observed %s",
 			c.name, c.declared, c.pem, histString(h[:j+1]), j+1, f.name, f.stanzaNames(), cur.variantName(),
@@ -505,20 +578,33 @@ func runHistory(r *mon.Run, col *collector, b *batch, h []step) (recs []stepRec)
 		if got.detail != "" && !panicked {
 			desc += " (" + got.detail + ")"
 		}
-		switch {
-		case panicked:
-			col.add(mkWitness(fmt.Sprintf("panic:%s:%s:%s", c.keyType(), state, f.matchClass()), desc+"\n"+got.detail, j))
+		if panicked {
+			col.add(mkWitness(fmt.Sprintf("panic:%s:%s", f.matchClass(), state), desc+"\n"+got.detail, j), false)
 			return recs
-		case !followV && !c.consistent && vOK && okV:
-			// every observation so far is what "the mismatched key is cached" predicts
-			col.add(mkWitness(F7Key, desc+" — exactly what an identity that kept the private key although it does not belong to the declared public key would do", j))
-			r.Tab("mismatched_key_cached_by_identity", c.name)
-			followV = true
-			continue
 		}
-		key := fmt.Sprintf("step:%s:%s:%s:%s:%s:want=%d/%s:got=%d/%s", c.keyType(), c.consistency(), state, f.matchClass(), pl,
-			want.prompts, want.class, got.prompts, got.class)
-		col.add(mkWitness(key, desc, j))
+		// key of the divergence: where the matching stanza is, the model state,
+		// and what differs (the prompt count, or with equal prompts the outcome)
+		key := fmt.Sprintf("step:%s:%s:prompts=%d->%d", f.matchClass(), state, want.prompts, got.prompts)
+		if want.prompts == got.prompts {
+			key = fmt.Sprintf("step:%s:%s:outcome=%s->%s", f.matchClass(), state, want.class, got.class)
+		}
+		if !followV && !c.consistent && vOK && okV {
+			// Every observation so far is what "the mismatched key is cached"
+			// predicts. A decryption without a prompt by an identity whose
+			// stored key is not the declared one has no other explanation and
+			// names the defect; the weaker symptoms (e.g. no prompt for a file
+			// addressed to the declared key) are attributed to it only if the
+			// run also holds such a conclusive history (see report below).
+			r.Tab("mismatched_key_cached_by_identity", c.name)
+			if got.class == clsPlain && got.prompts == 0 {
+				col.add(mkWitness(F7Key, desc+" — an identity whose private key does not belong to the declared public key kept that key after the mismatch was detected", j), false)
+				followV = true
+				continue
+			}
+			col.add(mkWitness(key, desc, j), true)
+			return recs
+		}
+		col.add(mkWitness(key, desc, j), false)
 		return recs
 	}
 	if !followV {
@@ -647,7 +733,7 @@ func main() {
 		total += b.count
 		r.Set("histories:"+b.c.name+":"+b.name, b.count)
 	}
-	col := &collector{best: map[string]*witness{}, hits: map[string]int{}}
+	col := newCollector()
 	mon.Par(total, func(i int) {
 		k := sort.Search(len(offs), func(k int) bool { return offs[k] > i }) - 1
 		b := batches[k]
@@ -672,16 +758,9 @@ func main() {
 	}
 
 	// report, deterministically: one violation per key, with its shortest witness
-	ks := make([]string, 0, len(col.best))
-	for k := range col.best {
-		ks = append(ks, k)
-	}
-	sort.Strings(ks)
-	for _, k := range ks {
-		w := col.best[k]
-		w.replay["histories_with_this_key"] = col.hits[k]
-		r.Count("diverging_histories", int64(col.hits[k]))
-		r.Violate(k, w.what, w.replay)
+	for _, w := range col.resolve() {
+		r.Count("diverging_histories", int64(w.replay["histories_with_this_key"].(int)))
+		r.Violate(w.key, w.what, w.replay)
 	}
 	r.Finish()
 }
